@@ -23,8 +23,8 @@ def _pair_mps(rng, L, d, layout):
     qd = _qd(rng, d, layout)
     p0 = str(rng.choice(['one', 'random', 'max', 'over']))
     p1 = str(rng.choice(['one', 'random', 'max', 'over']))
-    k0 = str(rng.choice(['complex', 'real', 'int']))
-    k1 = str(rng.choice(['complex', 'real', 'int']))
+    k0 = str(rng.choice(['complex', 'real', 'int', 'mixed']))
+    k1 = str(rng.choice(['complex', 'real', 'int', 'mixed']))
     q0 = int(rng.integers(-1, 2))
     a = gen.rand_mps(rng, qd, L, p0, Dmax=4, kind=k0, q0=q0)
     b = gen.rand_mps(rng, qd, L, p1, Dmax=4, kind=k1, q0=q0, qL=int(a.qD[-1][0]))
@@ -65,8 +65,8 @@ def mpo_arith(ctx, idx, rng):
     qd = _qd(rng, d, layout)
     diffs = np.unique(np.subtract.outer(qd, qd))
     b0 = int(rng.choice(diffs))
-    k0 = str(rng.choice(['complex', 'real', 'int']))
-    k1 = str(rng.choice(['complex', 'real', 'int']))
+    k0 = str(rng.choice(['complex', 'real', 'int', 'mixed']))
+    k1 = str(rng.choice(['complex', 'real', 'int', 'mixed']))
     A = gen.rand_mpo(rng, qd, L, Dmax=3, kind=k0)
     B = gen.rand_mpo(rng, qd, L, Dmax=3, kind=k1, boundary=(int(A.qD[0][0]), int(A.qD[-1][0])))
     # B's trailing charge must be reachable: re-mask (rand_mpo masks with its own qD, so B is consistent by construction)
